@@ -341,4 +341,1059 @@ theorem tenthsDec_head (t : Nat) : ∃ b r, tenthsDec t = b :: r ∧ b ≠ 110 :
   exact ⟨digitB d, r ++ 46 :: [digitB (t % 10)], by rw [h]; rfl, (lowerB_digit d hd).2⟩
 
 
+/-! ### comma separated lists -/
+
+theorem tNone_eq : tNone = [110, 111, 110, 101] := by decide
+
+theorem isNoneCI_false_of_mem (s : Bytes) (c : UInt8) (hc : c ∈ s)
+    (h : lowerB c ≠ 110 ∧ lowerB c ≠ 111 ∧ lowerB c ≠ 101) : isNoneCI s = false := by
+  unfold isNoneCI lower
+  rw [tNone_eq]
+  have hm : lowerB c ∈ s.map lowerB := List.mem_map_of_mem hc
+  cases hs : s.map lowerB with
+  | nil => rw [hs] at hm; simp at hm
+  | cons x xs =>
+    have hne : ¬ (x :: xs = [110, 111, 110, 101]) := by
+      intro e; rw [hs, e] at hm
+      simp at hm; rcases hm with hm | hm | hm | hm <;> simp_all
+    have h1 : ((x :: xs) == ([] : Bytes)) = false := by simp
+    have h2 : ((x :: xs) == ([110, 111, 110, 101] : Bytes)) = false := by
+      simpa using hne
+    rw [h1, h2]; rfl
+
+theorem joinWith_mem_sep (sep : UInt8) (p q : Bytes) (r : List Bytes) : sep ∈ joinWith sep (p :: q :: r) := by
+  simp [joinWith]
+
+theorem isNoneCI_joinWith (l : List Bytes) (hne : l ≠ []) (h : ∀ i ∈ l, isNoneCI i = false) :
+    isNoneCI (joinWith 44 l) = false := by
+  cases l with
+  | nil => exact absurd rfl hne
+  | cons p r =>
+    cases r with
+    | nil => simpa [joinWith] using h p (by simp)
+    | cons q r' =>
+      exact isNoneCI_false_of_mem _ 44 (joinWith_mem_sep 44 p q r') (by decide)
+
+theorem filter_notNone (l : List Bytes) (h : ∀ i ∈ l, isNoneCI i = false) :
+    l.filter (fun i => !isNoneCI i) = l := by
+  apply List.filter_eq_self.mpr
+  intro i hi; simp [h i hi]
+
+theorem isNoneCI_nil : isNoneCI [] = true := by decide
+
+/-- `from_string(to_string(l)) = l` for the comma-list codec -/
+theorem listJoin_roundtrip (l : List Bytes) (h : ∀ i ∈ l, (44 : UInt8) ∉ i ∧ isNoneCI i = false) :
+    (if isNoneCI (joinWith 44 l) then [] else (splitOn 44 (joinWith 44 l)).filter (fun i => !isNoneCI i)) = l := by
+  by_cases hl : l = []
+  · subst hl; simp [joinWith, isNoneCI_nil]
+  · rw [isNoneCI_joinWith l hl (fun i hi => (h i hi).2)]
+    simp only [Bool.false_eq_true, if_false]
+    rw [splitOn_joinWith 44 l hl (fun i hi => (h i hi).1), filter_notNone l (fun i hi => (h i hi).2)]
+
+/-! ### escaped URLs are never none-like -/
+
+theorem quoteByte_cases (safe : UInt8 → Bool) (b : UInt8) :
+    quoteByte safe b = [b] ∨ (∃ c r, quoteByte safe b = c :: r ∧ (c = 43 ∨ c = 37)) := by
+  unfold quoteByte
+  by_cases h : (isUnreserved b || safe b) = true
+  · rw [if_pos h]; exact Or.inl rfl
+  · rw [if_neg h]
+    by_cases h32 : b = 32
+    · rw [if_pos h32]; exact Or.inr ⟨43, [], rfl, Or.inl rfl⟩
+    · rw [if_neg h32]; exact Or.inr ⟨37, _, rfl, Or.inr rfl⟩
+
+theorem quotePlus_eq_self (safe : UInt8 → Bool) (s : Bytes)
+    (h : ∀ c ∈ quotePlus safe s, c ≠ 43 ∧ c ≠ 37) : quotePlus safe s = s := by
+  induction s with
+  | nil => rfl
+  | cons b r ih =>
+    simp only [quotePlus] at h ⊢
+    rcases quoteByte_cases safe b with hq | ⟨c, t, hq, hc⟩
+    · rw [hq] at h ⊢
+      rw [ih (fun c hc => h c (by simp [hc]))]; rfl
+    · rw [hq] at h
+      have := h c (by simp)
+      rcases hc with rfl | rfl <;> simp at this
+
+theorem quotePlus_nil_iff (safe : UInt8 → Bool) (s : Bytes) (h : quotePlus safe s = []) : s = [] := by
+  cases s with
+  | nil => rfl
+  | cons b r =>
+    simp only [quotePlus] at h
+    rcases quoteByte_cases safe b with hq | ⟨c, t, hq, _⟩ <;> rw [hq] at h <;> simp at h
+
+theorem lowerB_none_letters : ∀ c : UInt8, (lowerB c = 110 ∨ lowerB c = 111 ∨ lowerB c = 101) → c ≠ 43 ∧ c ≠ 37 :=
+  forall_uint8 (by decide +kernel)
+
+theorem isNoneCI_quotePlus (safe : UInt8 → Bool) (s : Bytes) (h : isNoneCI s = false) :
+    isNoneCI (quotePlus safe s) = false := by
+  cases hq : isNoneCI (quotePlus safe s) with
+  | false => rfl
+  | true =>
+    exfalso
+    unfold isNoneCI at hq
+    rcases (Bool.or_eq_true _ _).mp hq with hq | hq
+    · have : lower (quotePlus safe s) = [] := by simpa using hq
+      have : quotePlus safe s = [] := by unfold lower at this; simpa using this
+      have := quotePlus_nil_iff safe s this
+      subst this; simp [isNoneCI_nil] at h
+    · have hl : lower (quotePlus safe s) = tNone := by simpa using hq
+      have hall : ∀ c ∈ quotePlus safe s, c ≠ 43 ∧ c ≠ 37 := by
+        intro c hc
+        have hm : lowerB c ∈ lower (quotePlus safe s) := List.mem_map_of_mem hc
+        rw [hl, tNone_eq] at hm
+        apply lowerB_none_letters c
+        simp at hm; rcases hm with hm | hm | hm | hm <;> simp [hm]
+      rw [quotePlus_eq_self safe s hall] at hl
+      unfold isNoneCI at h
+      simp [hl] at h
+
+
+/-! ### DRM selections -/
+
+/-- canonical DRM selection: known systems, each with a non-empty set of locations -/
+def CanonDrm (v : List (Bytes × LocSet)) : Prop := ∀ e ∈ v, e.1 ∈ drmNames ∧ e.2 ≠ LocSet.empty
+
+theorem drmName_facts' : ∀ n ∈ drmNames, (45 : UInt8) ∉ n ∧ (44 : UInt8) ∉ n ∧ lower n = n ∧
+    n ≠ [] ∧ n.head? ≠ some 110 ∧ n.head? ≠ some 97 := by
+  decide +kernel
+
+theorem drmName_facts (n : Bytes) (hn : n ∈ drmNames) : (45 : UInt8) ∉ n ∧ (44 : UInt8) ∉ n ∧ lower n = n ∧
+    ∃ b r, n = b :: r ∧ b ≠ 110 ∧ b ≠ 97 := by
+  obtain ⟨h1, h2, h3, h4, h5, h6⟩ := drmName_facts' n hn
+  refine ⟨h1, h2, h3, ?_⟩
+  cases n with
+  | nil => exact absurd rfl h4
+  | cons b r => exact ⟨b, r, rfl, by simpa using h5, by simpa using h6⟩
+
+theorem locSet_facts (l : LocSet) :
+    locSetOf .valueError l.names = .ok l ∧
+    (∀ n ∈ l.names, (45 : UInt8) ∉ n ∧ (44 : UInt8) ∉ n ∧ lower n = n) ∧
+    (l ≠ LocSet.empty → l.names ≠ []) := by
+  obtain ⟨c, m, p⟩ := l
+  cases c <;> cases m <;> cases p <;> refine ⟨by rfl, by decide +kernel, by decide⟩
+
+theorem lower_append (a b : Bytes) : lower (a ++ b) = lower a ++ lower b := by simp [lower]
+
+theorem lower_joinWith (sep : UInt8) (hs : lowerB sep = sep) (ps : List Bytes) (h : ∀ p ∈ ps, lower p = p) :
+    lower (joinWith sep ps) = joinWith sep ps := by
+  induction ps with
+  | nil => rfl
+  | cons p r ih =>
+    cases r with
+    | nil => simpa [joinWith] using h p (by simp)
+    | cons q r' =>
+      simp only [joinWith, lower_append]
+      rw [h p (by simp)]
+      have := ih (fun x hx => h x (by simp [hx]))
+      simp only [lower, List.map_cons, hs] at this ⊢
+      rw [this]
+
+theorem not_mem_joinWith (c sep : UInt8) (hc : c ≠ sep) (ps : List Bytes) (h : ∀ p ∈ ps, c ∉ p) :
+    c ∉ joinWith sep ps := by
+  induction ps with
+  | nil => simp [joinWith]
+  | cons p r ih =>
+    cases r with
+    | nil => simpa [joinWith] using h p (by simp)
+    | cons q r' =>
+      simp only [joinWith, List.mem_append, List.mem_cons, not_or]
+      exact ⟨h p (by simp), hc, ih (fun x hx => h x (by simp [hx]))⟩
+
+/-- text of one canonical item: no comma, lower case, starts with the first letter of a system name -/
+theorem drmItemText_facts (e : Bytes × LocSet) (he : e.1 ∈ drmNames) :
+    (44 : UInt8) ∉ drmItemText e ∧ lower (drmItemText e) = drmItemText e ∧
+    ∃ b r, drmItemText e = b :: r ∧ b ≠ 110 ∧ b ≠ 97 := by
+  obtain ⟨h45, h44, hl, b, r, hn, hb1, hb2⟩ := drmName_facts e.1 he
+  obtain ⟨_, hnames, _⟩ := locSet_facts e.2
+  unfold drmItemText
+  by_cases hall : e.2 = LocSet.all
+  · simp only [hall, if_true]; exact ⟨h44, hl, b, r, hn, hb1, hb2⟩
+  · simp only [hall, if_false]
+    refine ⟨?_, ?_, ?_⟩
+    · apply not_mem_joinWith 44 45 (by decide)
+      intro p hp
+      rcases List.mem_cons.mp hp with rfl | hp
+      · exact h44
+      · exact (hnames p hp).2.1
+    · apply lower_joinWith 45 (by decide)
+      intro p hp
+      rcases List.mem_cons.mp hp with rfl | hp
+      · exact hl
+      · exact (hnames p hp).2.2
+    · cases hnm : e.2.names with
+      | nil => exact ⟨b, r, by simp [joinWith, hn], hb1, hb2⟩
+      | cons q qs => exact ⟨b, r ++ 45 :: joinWith 45 (q :: qs), by simp [joinWith, hn], hb1, hb2⟩
+
+theorem contains_iff (s : Bytes) (c : UInt8) : s.contains c = true ↔ c ∈ s := by simp
+
+theorem drmItem_text (e : Bytes × LocSet) (he : e.1 ∈ drmNames) (hne : e.2 ≠ LocSet.empty) :
+    drmItem (drmItemText e) = .ok e := by
+  obtain ⟨h45, _, _, _⟩ := drmName_facts e.1 he
+  obtain ⟨hloc, hnames, hnn⟩ := locSet_facts e.2
+  unfold drmItemText
+  by_cases hall : e.2 = LocSet.all
+  · simp only [hall, if_true]
+    unfold drmItem
+    have : e.1.contains 45 = false := by
+      cases h : e.1.contains 45 with
+      | false => rfl
+      | true => exact absurd ((contains_iff _ _).mp h) h45
+    rw [this]; simp only [Bool.false_eq_true, if_false]
+    rw [← hall]
+  · simp only [hall, if_false]
+    unfold drmItem
+    have hnames_ne := hnn hne
+    have hc : (joinWith 45 (e.1 :: e.2.names)).contains 45 = true := by
+      apply (contains_iff _ _).mpr
+      cases hnm : e.2.names with
+      | nil => exact absurd hnm hnames_ne
+      | cons q qs => exact joinWith_mem_sep 45 e.1 q qs
+    rw [hc]; simp only [if_true]
+    rw [splitOn_joinWith 45 (e.1 :: e.2.names) (by simp) (by
+      intro p hp
+      rcases List.mem_cons.mp hp with rfl | hp
+      · exact h45
+      · exact (hnames p hp).1)]
+    simp only [hloc]
+    rfl
+
+theorem mapM_drmItem (v : List (Bytes × LocSet)) (hv : CanonDrm v) :
+    (v.map drmItemText).mapM drmItem = .ok v := by
+  induction v with
+  | nil => rfl
+  | cons e r ih =>
+    have he := hv e (by simp)
+    simp only [List.map_cons, List.mapM_cons, drmItem_text e he.1 he.2,
+      ih (fun x hx => hv x (by simp [hx]))]
+    rfl
+
+theorem startsWith_false_of_head (p0 b : UInt8) (p r : Bytes) (h : b ≠ p0) :
+    startsWith (p0 :: p) (b :: r) = false := by
+  simp [startsWith, h]
+
+theorem joinWith_head (sep b : UInt8) (r : Bytes) (ts : List Bytes) :
+    ∃ r', joinWith sep ((b :: r) :: ts) = b :: r' := by
+  cases ts with
+  | nil => exact ⟨r, rfl⟩
+  | cons q qs => exact ⟨r ++ sep :: joinWith sep (q :: qs), rfl⟩
+
+/-- not the `all` shorthand: the text parses back to exactly the same list -/
+theorem drm_roundtrip_list (v : List (Bytes × LocSet)) (hv : CanonDrm v) :
+    drmFromString (joinWith 44 (v.map drmItemText)) = .ok v := by
+  cases v with
+  | nil => rfl
+  | cons e r =>
+    have he := hv e (by simp)
+    have hfacts : ∀ x ∈ (e :: r).map drmItemText, (44 : UInt8) ∉ x ∧ lower x = x := by
+      intro x hx
+      obtain ⟨y, hy, rfl⟩ := List.mem_map.mp hx
+      have := drmItemText_facts y (hv y hy).1
+      exact ⟨this.1, this.2.1⟩
+    obtain ⟨_, _, b, t, ht, hb1, hb2⟩ := drmItemText_facts e he.1
+    have hlow : lower (joinWith 44 ((e :: r).map drmItemText)) = joinWith 44 ((e :: r).map drmItemText) :=
+      lower_joinWith 44 (by decide) _ (fun x hx => (hfacts x hx).2)
+    obtain ⟨t', hhead⟩ : ∃ t', joinWith 44 ((e :: r).map drmItemText) = b :: t' := by
+      simp only [List.map_cons, ht]; exact joinWith_head 44 b t _
+    unfold drmFromString
+    simp only [hlow]
+    rw [hhead]
+    have h1 : startsWith tNone (b :: t') = false := by
+      rw [tNone_eq]; exact startsWith_false_of_head 110 b _ t' hb1
+    have h2 : startsWith (ascii "all") (b :: t') = false := by
+      have : ascii "all" = [97, 108, 108] := by decide
+      rw [this]; exact startsWith_false_of_head 97 b _ t' hb2
+    have h3 : ((b :: t') == ([] : Bytes)) = false := by simp
+    simp only [h1, h2, h3, Bool.or_self, Bool.false_eq_true, if_false]
+    rw [← hhead, splitOn_joinWith 44 _ (by simp) (fun x hx => (hfacts x hx).1)]
+    exact mapM_drmItem (e :: r) hv
+
+
+theorem drmItemText_has45 (e : Bytes × LocSet) (h : e.2 ≠ LocSet.all) (hne : e.2 ≠ LocSet.empty) :
+    (45 : UInt8) ∈ drmItemText e := by
+  unfold drmItemText
+  simp only [h, if_false]
+  have := (locSet_facts e.2).2.2 hne
+  cases hnm : e.2.names with
+  | nil => exact absurd hnm this
+  | cons q qs => exact joinWith_mem_sep 45 e.1 q qs
+
+theorem drmItemText_all (e : Bytes × LocSet) (h : e.2 = LocSet.all) : drmItemText e = e.1 := by
+  unfold drmItemText; simp [h]
+
+theorem isAllDrm_spec (v : List (Bytes × LocSet)) (hv : CanonDrm v)
+    (h : isAllDrm (v.map drmItemText) = true) :
+    ∀ e, e ∈ drmNames.map (·, LocSet.all) ↔ e ∈ v := by
+  unfold isAllDrm at h
+  obtain ⟨h1, h2⟩ := (Bool.and_eq_true _ _).mp h
+  have h1' : ∀ y ∈ v, drmItemText y ∈ drmNames := by
+    intro y hy
+    have := List.all_eq_true.mp h1 (drmItemText y) (List.mem_map_of_mem hy)
+    simpa using this
+  have h2' : ∀ n ∈ drmNames, ∃ y ∈ v, drmItemText y = n := by
+    intro n hn
+    have := List.all_eq_true.mp h2 n hn
+    have : n ∈ v.map drmItemText := by simpa using this
+    obtain ⟨y, hy, e⟩ := List.mem_map.mp this
+    exact ⟨y, hy, e⟩
+  have key : ∀ y ∈ v, y.2 = LocSet.all := by
+    intro y hy
+    by_cases hall : y.2 = LocSet.all
+    · exact hall
+    · exact absurd (drmItemText_has45 y hall (hv y hy).2) (drmName_facts _ (h1' y hy)).1
+  intro e
+  constructor
+  · intro he
+    obtain ⟨n, hn, rfl⟩ := List.mem_map.mp he
+    obtain ⟨y, hy, e'⟩ := h2' n hn
+    rw [drmItemText_all y (key y hy)] at e'
+    have : y = (n, LocSet.all) := by
+      rw [← e', ← key y hy]
+    rw [← this]; exact hy
+  · intro he
+    have := h1' e he
+    rw [drmItemText_all e (key e he)] at this
+    apply List.mem_map.mpr
+    exact ⟨e.1, this, by rw [← key e he]⟩
+
+theorem drmFromString_all : drmFromString (ascii "all") = .ok (drmNames.map (·, LocSet.all)) := by
+  rfl
+
+/-- `_drm_selection_from_string(_drm_selection_to_string(v))` selects the same systems with the
+same locations (as a set: the `all` shorthand lists the systems in `DrmSystem.values()` order) -/
+theorem drm_roundtrip (v : List (Bytes × LocSet)) (hv : CanonDrm v) :
+    ∃ r, drmFromString (drmToString v) = .ok r ∧ (∀ e, e ∈ r ↔ e ∈ v) ∧
+      (isAllDrm (v.map drmItemText) = false → r = v) := by
+  unfold drmToString
+  by_cases h : isAllDrm (v.map drmItemText) = true
+  · simp only [h, if_true]
+    exact ⟨_, drmFromString_all, isAllDrm_spec v hv h, by simp [h]⟩
+  · simp only [h, if_false]
+    exact ⟨v, drm_roundtrip_list v hv, fun _ => Iff.rfl, fun _ => rfl⟩
+
+
+/-! ### date-time text (parameter) and error lists -/
+
+/-- what C07 needs to know about the ISO-8601 date-time text codec
+(`to_iso_datetime` / `from_isodatetime`).  `roundtrip` is C19's theorem; the
+other three say that a rendered date-time starts with a digit, contains neither
+`,` nor `=`, and is not a decimal integer (it contains `-`/`:`/`T`). -/
+structure DtCodecLaws {DT : Type} (C : DTCodec DT) : Prop where
+  roundtrip : DtTextRoundTrip C
+  digitFirst : ∀ d, ∃ b r, C.render d = b :: r ∧ isDigit b = true
+  clean : ∀ d, (44 : UInt8) ∉ C.render d ∧ (61 : UInt8) ∉ C.render d
+  notInt : ∀ d, pyInt (C.render d) = none
+
+section
+variable {DT : Type} (C : DTCodec DT)
+
+theorem isDigit_facts : ∀ b : UInt8, isDigit b = true → b ≠ 110 ∧ lowerB b ≠ 110 ∧ lowerB b = b :=
+  forall_uint8 (by decide +kernel)
+
+theorem render_ne_nil (hC : DtCodecLaws C) (d : DT) : C.render d ≠ [] := by
+  obtain ⟨b, r, h, _⟩ := hC.digitFirst d; rw [h]; simp
+
+theorem parseDT_render (hC : DtCodecLaws C) (d : DT) : parseDT C (C.render d) = .ok (some d) := by
+  unfold parseDT
+  simp [render_ne_nil C hC d, hC.roundtrip d]
+
+theorem isNoneCS_render (hC : DtCodecLaws C) (d : DT) : isNoneCS (C.render d) = false := by
+  obtain ⟨b, r, h, hb⟩ := hC.digitFirst d
+  rw [h]; exact isNoneCS_false_of_head b r (isDigit_facts b hb).1
+
+theorem specialAst_not_render (hC : DtCodecLaws C) (d : DT) : specialAst.contains (C.render d) = false := by
+  obtain ⟨b, r, h, hb⟩ := hC.digitFirst d
+  rw [h]
+  have hs : ∀ s ∈ specialAst, s.head? ≠ some b := by
+    intro s hs
+    have : ∀ s ∈ specialAst, ∀ c, s.head? = some c → isDigit c = false := by decide +kernel
+    intro e; have := this s hs b e; rw [hb] at this; exact absurd this (by decide)
+  cases hc : specialAst.contains (b :: r) with
+  | false => rfl
+  | true =>
+    have : (b :: r) ∈ specialAst := by simpa using hc
+    exact absurd (by simp) (hs _ this)
+
+def errItemText (e : Int × Pos DT) : Bytes := intDec e.1 ++ 61 :: posText C e.2
+
+theorem errText_eq (l : List (Int × Pos DT)) : errText C l = joinWith 44 (l.map (errItemText C)) := rfl
+
+theorem posText_clean (hC : DtCodecLaws C) (p : Pos DT) :
+    (44 : UInt8) ∉ posText C p ∧ (61 : UInt8) ∉ posText C p := by
+  cases p with
+  | num z => exact ⟨intDec_noComma z, intDec_noEq z⟩
+  | «at» d => exact hC.clean d
+  | nothing => simp [posText]
+
+theorem pyInt_nil : pyInt [] = none := by rfl
+
+theorem errItem_text (hC : DtCodecLaws C) (e : Int × Pos DT) : errItem C (errItemText C e) = .ok e := by
+  obtain ⟨c, p⟩ := e
+  unfold errItem errItemText
+  rw [splitOn_append_sep 61 _ _ (intDec_noEq c), splitOn_noSep 61 _ (posText_clean C hC p).2]
+  cases p with
+  | num z => simp [posText, pyInt_intDec]
+  | «at» d => simp [posText, hC.notInt d, parseDT_render C hC d, pyInt_intDec]
+  | nothing => simp [posText, pyInt_nil, parseDT, pyInt_intDec]
+
+theorem errItemText_facts (hC : DtCodecLaws C) (e : Int × Pos DT) :
+    (44 : UInt8) ∉ errItemText C e ∧ ∃ b r, errItemText C e = b :: r ∧ lowerB b ≠ 110 := by
+  constructor
+  · unfold errItemText
+    simp only [List.mem_append, List.mem_cons, not_or]
+    exact ⟨intDec_noComma e.1, by decide, (posText_clean C hC e.2).1⟩
+  · obtain ⟨b, r, h, _, h2⟩ := intDec_head e.1
+    exact ⟨b, r ++ 61 :: posText C e.2, by unfold errItemText; rw [h]; rfl, h2⟩
+
+theorem mapM_errItem (hC : DtCodecLaws C) (l : List (Int × Pos DT)) :
+    (l.map (errItemText C)).mapM (errItem C) = .ok l := by
+  induction l with
+  | nil => rfl
+  | cons e r ih =>
+    simp only [List.map_cons, List.mapM_cons, errItem_text C hC e, ih]
+    rfl
+
+/-- `_errors_from_string(_errors_to_string(l)) = l` -/
+theorem errorList_roundtrip (hC : DtCodecLaws C) (l : List (Int × Pos DT)) :
+    fromString C .errorList (errText C l) = .ok (.errs l) := by
+  unfold fromString
+  cases l with
+  | nil => rfl
+  | cons e r =>
+    rw [errText_eq]
+    obtain ⟨_, b, t, ht, hb⟩ := errItemText_facts C hC e
+    obtain ⟨t', hhead⟩ : ∃ t', joinWith 44 ((e :: r).map (errItemText C)) = b :: t' := by
+      simp only [List.map_cons, ht]; exact joinWith_head 44 b t _
+    have hn : isNoneCI (joinWith 44 ((e :: r).map (errItemText C))) = false := by
+      rw [hhead]; exact isNoneCI_false_of_head b t' hb
+    simp only [hn, Bool.false_eq_true, if_false]
+    rw [splitOn_joinWith 44 _ (by simp) (by
+      intro x hx
+      obtain ⟨y, _, rfl⟩ := List.mem_map.mp hx
+      exact (errItemText_facts C hC y).1)]
+    rw [mapM_errItem C hC]
+    rfl
+
+end
+
+
+/-! ### query strings -/
+
+theorem safeQuery_ok : SafeOk safeQuery := ⟨by decide, by decide⟩
+theorem safeNone_ok : SafeOk safeNone := ⟨by decide, by decide⟩
+
+theorem quoteByte_safeQuery_clean : ∀ b : UInt8, ∀ c ∈ quoteByte safeQuery b, c ≠ 38 ∧ c ≠ 61 ∧ c ≠ 35 ∧ c ≠ 63 :=
+  forall_uint8 (by decide +kernel)
+
+theorem quotePlus_safeQuery_clean (s : Bytes) : ∀ c ∈ quotePlus safeQuery s, c ≠ 38 ∧ c ≠ 61 ∧ c ≠ 35 ∧ c ≠ 63 := by
+  induction s with
+  | nil => simp [quotePlus]
+  | cons b r ih =>
+    intro c hc
+    simp only [quotePlus, List.mem_append] at hc
+    rcases hc with hc | hc
+    · exact quoteByte_safeQuery_clean b c hc
+    · exact ih c hc
+
+/-- a parameter name that needs no escaping: non-empty, only unreserved characters -/
+def KeyOk (k : String) : Prop := ascii k ≠ [] ∧ ∀ b ∈ ascii k, isUnreserved b = true
+
+theorem unquotePlus_id (s : Bytes) (h : ∀ b ∈ s, b ≠ 43 ∧ b ≠ 37) : unquotePlus s = s := by
+  induction s with
+  | nil => exact unquotePlus_nil
+  | cons b r ih =>
+    rw [unquotePlus_plain b r (h b (by simp)).1 (h b (by simp)).2, ih (fun x hx => h x (by simp [hx]))]
+
+theorem key_clean (k : String) (hk : KeyOk k) :
+    ∀ b ∈ ascii k, b ≠ 43 ∧ b ≠ 37 ∧ b ≠ 38 ∧ b ≠ 61 ∧ b ≠ 35 ∧ b ≠ 63 :=
+  fun b hb => unreserved_not_special b (hk.2 b hb)
+
+theorem renderPair_facts (p : String × Option Bytes) (hk : KeyOk p.1) :
+    renderPair p ≠ [] ∧ (∀ c ∈ renderPair p, c ≠ 38 ∧ c ≠ 35 ∧ c ≠ 63) := by
+  unfold renderPair
+  constructor
+  · intro h
+    have : ascii p.1 = [] := by
+      cases hh : ascii p.1 with
+      | nil => rfl
+      | cons x xs => rw [hh] at h; simp at h
+    exact hk.1 this
+  · intro c hc
+    rcases List.mem_append.mp hc with hc | hc
+    · have := key_clean p.1 hk c hc; exact ⟨this.2.2.1, this.2.2.2.2.1, this.2.2.2.2.2⟩
+    · rcases List.mem_cons.mp hc with rfl | hc
+      · decide
+      · have := quotePlus_safeQuery_clean _ c hc; exact ⟨this.1, this.2.2.1, this.2.2.2⟩
+
+theorem parsePair (p : String × Option Bytes) (hk : KeyOk p.1) :
+    (let kv := splitFirst 61 (renderPair p); (unquotePlus kv.1, unquotePlus (kv.2.getD []))) =
+      (ascii p.1, cgiText p.2) := by
+  unfold renderPair
+  have h61 : (61 : UInt8) ∉ ascii p.1 := fun h => (key_clean p.1 hk 61 h).2.2.2.1 rfl
+  rw [splitFirst_append 61 _ _ h61]
+  simp only [Option.getD_some]
+  rw [unquotePlus_id (ascii p.1) (fun b hb => ⟨(key_clean p.1 hk b hb).1, (key_clean p.1 hk b hb).2.1⟩),
+    unquotePlus_quotePlus safeQuery safeQuery_ok]
+
+/-- parsing the query text that `dict_to_cgi_params` writes for `S` gives back the
+names and exactly the texts of `S`, in the same order -/
+theorem parseQsl_render (S : List (String × Option Bytes)) (hS : ∀ p ∈ S, KeyOk p.1) :
+    parseQsl (joinWith 38 (S.map renderPair)) = S.map (fun p => (ascii p.1, cgiText p.2)) := by
+  unfold parseQsl
+  by_cases hne : S = []
+  · subst hne; simp [joinWith, splitOn]
+  · rw [splitOn_joinWith 38 _ (by simpa using hne) (by
+      intro x hx
+      obtain ⟨p, hp, rfl⟩ := List.mem_map.mp hx
+      exact fun h => ((renderPair_facts p (hS p hp)).2 38 h).1 rfl)]
+    clear hne
+    induction S with
+    | nil => rfl
+    | cons p r ih =>
+      have hp := hS p (by simp)
+      simp only [List.map_cons, List.filterMap_cons, (renderPair_facts p hp).1, if_false]
+      have := parsePair p hp
+      simp only at this
+      rw [this, ih (fun x hx => hS x (by simp [hx]))]
+
+theorem firstOnly_id (l : List (Bytes × Bytes)) (h : (l.map Prod.fst).Nodup) : firstOnly l = l := by
+  induction l with
+  | nil => rfl
+  | cons p r ih =>
+    have hn := List.nodup_cons.mp h
+    simp only [firstOnly]
+    rw [ih hn.2]
+    congr 1
+    apply List.filter_eq_self.mpr
+    intro q hq
+    have : q.1 ≠ p.1 := fun e => hn.1 (by rw [← e]; exact List.mem_map_of_mem hq)
+    simp [this]
+
+/-- `queryOf` of a URL whose path has neither `?` nor `#` and whose query was written by `renderQuery` -/
+theorem queryOf_render (path : Bytes) (hp : (35 : UInt8) ∉ path ∧ (63 : UInt8) ∉ path)
+    (P : List (String × Option Bytes)) (hP : ∀ p ∈ P, KeyOk p.1) :
+    queryOf (path ++ renderQuery P) = joinWith 38 ((P.mergeSort keyLe).map renderPair) := by
+  unfold queryOf renderQuery
+  have hS : ∀ p ∈ P.mergeSort keyLe, KeyOk p.1 :=
+    fun p hp' => hP p ((List.mergeSort_perm P keyLe).mem_iff.mp hp')
+  cases hPe : P with
+  | nil =>
+    simp only [List.isEmpty_nil, if_true, List.append_nil]
+    rw [splitFirst_noSep 35 path hp.1, splitFirst_noSep 63 path hp.2]
+    simp [joinWith]
+  | cons p0 r0 =>
+    simp only [List.isEmpty_cons, Bool.false_eq_true, if_false]
+    rw [← hPe]
+    have h35 : (35 : UInt8) ∉ path ++ 63 :: joinWith 38 ((P.mergeSort keyLe).map renderPair) := by
+      simp only [List.mem_append, List.mem_cons, not_or]
+      refine ⟨hp.1, by decide, ?_⟩
+      apply not_mem_joinWith 35 38 (by decide)
+      intro x hx
+      obtain ⟨p, hp', rfl⟩ := List.mem_map.mp hx
+      exact fun h => ((renderPair_facts p (hS p hp')).2 35 h).2.1 rfl
+    rw [splitFirst_noSep 35 _ h35]
+    simp only
+    rw [splitFirst_append 63 path _ hp.2]
+    rfl
+
+
+/-! ### `convert_options` -/
+
+section
+variable {DT : Type} (C : DTCodec DT)
+
+theorem findRow_spec (tbl : List OptionRow) (k : Bytes) (i : Nat) (h : findRow tbl k = some i) :
+    ∃ r, tbl[i]? = some r ∧ ascii r.cgi = k := by
+  unfold findRow at h
+  obtain ⟨hlt, hp, _⟩ := List.findIdx?_eq_some_iff_getElem.mp h
+  exact ⟨tbl[i], by simp [hlt], by simpa using hp⟩
+
+/-- distinct parameter names that all belong to registered options and all parse:
+the result holds the parsed value for every named option and the default for every other -/
+theorem convertOptions_spec (tbl : List OptionRow) (A : List (Bytes × Bytes))
+    (hA : (A.map Prod.fst).Nodup) (dflt : Nat → Val DT)
+    (hok : ∀ kv ∈ A, ∃ i r v, findRow tbl kv.1 = some i ∧ tbl[i]? = some r ∧
+      fromString C r.kind kv.2 = .ok v) :
+    ∃ res, convertOptions C tbl dflt A = .ok res ∧
+      (∀ i, (∀ kv ∈ A, findRow tbl kv.1 ≠ some i) → res i = dflt i) ∧
+      (∀ kv ∈ A, ∀ i r, findRow tbl kv.1 = some i → tbl[i]? = some r →
+        fromString C r.kind kv.2 = .ok (res i)) := by
+  induction A generalizing dflt with
+  | nil => exact ⟨dflt, rfl, fun _ _ => rfl, fun kv h => by simp at h⟩
+  | cons kv rest ih =>
+    obtain ⟨i, r, v, hf, hr, hv⟩ := hok kv (by simp)
+    have hn : kv.1 ∉ rest.map Prod.fst ∧ (rest.map Prod.fst).Nodup := List.nodup_cons.mp hA
+    have hstep : convertStep C tbl dflt kv = .ok (setField dflt i v) := by
+      unfold convertStep; simp [hf, hr, hv]
+    obtain ⟨res, hres, hdef, hval⟩ := ih hn.2 (setField dflt i v)
+      (fun x hx => hok x (by simp [hx]))
+    refine ⟨res, by simp only [convertOptions, hstep, hres], ?_, ?_⟩
+    · intro j hj
+      have hji : j ≠ i := fun e => hj kv (by simp) (by rw [e]; exact hf)
+      rw [hdef j (fun x hx => hj x (by simp [hx]))]
+      simp [setField, hji]
+    · intro x hx j rj hfj hrj
+      rcases List.mem_cons.mp hx with rfl | hx
+      · have hij : j = i := by rw [hf] at hfj; exact (Option.some.inj hfj).symm
+        subst hij
+        have hrr : rj = r := by rw [hr] at hrj; exact (Option.some.inj hrj).symm
+        subst hrr
+        -- no later parameter names the same option
+        have : res j = setField dflt j v j := by
+          apply hdef j
+          intro y hy hfy
+          obtain ⟨_, _, e1⟩ := findRow_spec tbl x.1 j hf
+          obtain ⟨_, _, e2⟩ := findRow_spec tbl y.1 j hfy
+          have : x.1 = y.1 := by
+            obtain ⟨r1, h1, e1⟩ := findRow_spec tbl x.1 j hf
+            obtain ⟨r2, h2, e2⟩ := findRow_spec tbl y.1 j hfy
+            rw [h1] at h2; cases h2; rw [← e1, ← e2]
+          exact hn.1 (by rw [this]; exact List.mem_map_of_mem hy)
+        rw [this]; simp [setField, hv]
+      · exact hval x hx j rj hfj hrj
+
+end
+
+/-! ### `generate_cgi_parameters` -/
+
+section
+variable {DT : Type} [DecidableEq DT] (C : DTCodec DT)
+
+theorem mem_genFrom (use : Option Nat) (exclude : List String) (rd : Bool) (dflt o : Opts DT)
+    (rows : List OptionRow) (i0 : Nat) (p : String × Option Bytes) :
+    p ∈ genFrom C use exclude rd dflt o i0 rows ↔
+      ∃ j r, rows[j]? = some r ∧ emit C use exclude rd dflt o r (i0 + j) = some p := by
+  induction rows generalizing i0 with
+  | nil => simp [genFrom]
+  | cons r rs ih =>
+    simp only [genFrom, List.mem_append]
+    constructor
+    · rintro (h | h)
+      · refine ⟨0, r, by simp, ?_⟩
+        cases he : emit C use exclude rd dflt o r i0 with
+        | none => rw [he] at h; simp at h
+        | some q => rw [he] at h; simp at h; simp [h]
+      · obtain ⟨j, r', hj, he⟩ := (ih (i0 + 1)).mp h
+        exact ⟨j + 1, r', by simpa using hj, by rw [← he]; congr 1; omega⟩
+    · rintro ⟨j, r', hj, he⟩
+      cases j with
+      | zero =>
+        simp at hj; subst hj
+        left; simp at he; rw [he]; simp
+      | succ j =>
+        right
+        exact (ih (i0 + 1)).mpr ⟨j, r', by simpa using hj, by rw [← he]; congr 1; omega⟩
+
+theorem mem_genParams (tbl : List OptionRow) (use : Option Nat) (exclude : List String) (rd : Bool)
+    (dflt o : Opts DT) (p : String × Option Bytes) :
+    p ∈ genParams C tbl use exclude rd dflt o ↔
+      ∃ i r, tbl[i]? = some r ∧ emit C use exclude rd dflt o r i = some p := by
+  unfold genParams
+  rw [mem_genFrom]
+  simp
+
+/-- when `_generate_parameters_dict` writes an entry for a row -/
+theorem emit_some_iff (use : Option Nat) (exclude : List String) (rd : Bool) (dflt o : Opts DT)
+    (r : OptionRow) (i : Nat) (p : String × Option Bytes) :
+    emit C use exclude rd dflt o r i = some p ↔
+      ∃ v, o i = some v ∧ exclude.contains r.fieldName = false ∧ (rd && dflt i == some v) = false ∧
+        useMiss use r.usage = false ∧
+        (r.cgi, toText C r.kind v) = p := by
+  unfold emit
+  cases ho : o i with
+  | none => simp
+  | some v =>
+    simp only [Option.some.injEq, exists_eq_left']
+    cases h1 : exclude.contains r.fieldName <;> cases h2 : (rd && dflt i == some v) <;>
+      cases h3 : useMiss use r.usage <;> simp
+
+theorem emit_key (use : Option Nat) (exclude : List String) (rd : Bool) (dflt o : Opts DT)
+    (r : OptionRow) (i : Nat) (p : String × Option Bytes)
+    (h : emit C use exclude rd dflt o r i = some p) : p.1 = r.cgi := by
+  obtain ⟨v, _, _, _, _, hp⟩ := (emit_some_iff C use exclude rd dflt o r i p).mp h
+  rw [← hp]
+
+/-- keys of the generated dictionary are distinct when the registered names are -/
+theorem genFrom_keys_nodup (use : Option Nat) (exclude : List String) (rd : Bool) (dflt o : Opts DT)
+    (rows : List OptionRow) (i0 : Nat) (h : (rows.map (·.cgi)).Nodup) :
+    ((genFrom C use exclude rd dflt o i0 rows).map Prod.fst).Nodup := by
+  induction rows generalizing i0 with
+  | nil => simp [genFrom]
+  | cons r rs ih =>
+    have hn : r.cgi ∉ rs.map (·.cgi) ∧ (rs.map (·.cgi)).Nodup := List.nodup_cons.mp h
+    simp only [genFrom, List.map_append]
+    apply List.nodup_append.mpr
+    refine ⟨?_, ih (i0 + 1) hn.2, ?_⟩
+    · cases emit C use exclude rd dflt o r i0 <;> simp
+    · intro a ha b hb hab
+      subst hab
+      cases he : emit C use exclude rd dflt o r i0 with
+      | none => rw [he] at ha; simp at ha
+      | some q =>
+        rw [he] at ha; simp at ha
+        have hq := emit_key C use exclude rd dflt o r i0 q he
+        obtain ⟨p, hp, hpa⟩ := List.mem_map.mp hb
+        obtain ⟨j, r', hj, he'⟩ := (mem_genFrom C use exclude rd dflt o rs (i0 + 1) p).mp hp
+        have := emit_key C use exclude rd dflt o r' _ p he'
+        have hmem : r' ∈ rs := List.mem_of_getElem? hj
+        apply hn.1
+        rw [← hq, ← ha, ← hpa, this]
+        exact List.mem_map_of_mem hmem
+
+end
+
+
+/-! ### the codec round trip, kind by kind -/
+
+section
+variable {DT : Type} (C : DTCodec DT)
+
+/-- the values an option of kind `k` can hold (the image of its `from_string`, with
+floats restricted to non-negative multiples of 0.1) – the domain of the round trip -/
+def Canonical : Kind → Val DT → Prop
+  | .bool, .bool _ => True
+  | .intOrNone, .none => True
+  | .intOrNone, .int _ => True
+  | .floatOrNone, .none => True
+  | .floatOrNone, .tenths _ => True
+  | .strOrNone, .none => True
+  | .strOrNone, .str s => isNoneCI s = false
+  | .strRaw, .str _ => True
+  | .listJoin, .list l => ∀ i ∈ l, (44 : UInt8) ∉ i ∧ isNoneCI i = false
+  | .drmSelection, .drm v => CanonDrm v
+  | .quotedUrl, .none => True
+  | .quotedUrl, .str s => isNoneCI s = false
+  | .astDateTime, .none => True
+  | .astDateTime, .str s => s ∈ specialAst
+  | .astDateTime, .dt _ => True
+  | .dtOrNone, .none => True
+  | .dtOrNone, .dt _ => True
+  | .errorList, .errs _ => True
+  | .intOrDefault _, .int _ => True
+  | .posIntOrDefault _, .int z => 1 ≤ z
+  | _, _ => False
+
+/-- "the identical option value": equality, except that a DRM selection is the
+set of its (system, locations) entries -/
+def ValEquiv : Val DT → Val DT → Prop
+  | .drm a, .drm b => ∀ e, e ∈ a ↔ e ∈ b
+  | a, b => a = b
+
+theorem ValEquiv.refl (v : Val DT) : ValEquiv v v := by
+  cases v <;> simp [ValEquiv]
+
+theorem ValEquiv.of_eq {a b : Val DT} (h : a = b) : ValEquiv a b := h ▸ ValEquiv.refl b
+
+theorem isNoneCS_nil : isNoneCS [] = true := by decide
+
+theorem roundtrip_bool (b : Bool) :
+    fromString C .bool (cgiText (toText C .bool (.bool b))) = .ok (.bool b) := by
+  cases b <;> rfl
+
+theorem roundtrip_intOrNone_none :
+    fromString C .intOrNone (cgiText (toText C .intOrNone .none)) = .ok .none := by rfl
+
+theorem roundtrip_intOrNone (z : Int) :
+    fromString C .intOrNone (cgiText (toText C .intOrNone (.int z))) = .ok (.int z) := by
+  simp [fromString, toText, cgiText, intOrNone_intDec, Except.map]
+
+theorem roundtrip_floatOrNone_none :
+    fromString C .floatOrNone (cgiText (toText C .floatOrNone .none)) = .ok .none := by rfl
+
+theorem roundtrip_floatOrNone (t : Nat) :
+    fromString C .floatOrNone (cgiText (toText C .floatOrNone (.tenths t))) = .ok (.tenths t) := by
+  obtain ⟨b, r, h, hb⟩ := tenthsDec_head t
+  have : isNoneCS (tenthsDec t) = false := by rw [h]; exact isNoneCS_false_of_head b r hb
+  simp [fromString, toText, cgiText, this, pyTenths_tenthsDec]
+
+theorem roundtrip_strOrNone_none :
+    fromString C .strOrNone (cgiText (toText C .strOrNone .none)) = .ok .none := by rfl
+
+theorem roundtrip_strOrNone (s : Bytes) (h : isNoneCI s = false) :
+    fromString C .strOrNone (cgiText (toText C .strOrNone (.str s))) = .ok (.str s) := by
+  simp [fromString, toText, cgiText, h]
+
+theorem roundtrip_strRaw (s : Bytes) :
+    fromString C .strRaw (cgiText (toText C .strRaw (.str s))) = .ok (.str s) := by rfl
+
+theorem roundtrip_listJoin (l : List Bytes) (h : ∀ i ∈ l, (44 : UInt8) ∉ i ∧ isNoneCI i = false) :
+    fromString C .listJoin (cgiText (toText C .listJoin (.list l))) = .ok (.list l) := by
+  have := listJoin_roundtrip l h
+  simp only [fromString, toText, cgiText, Option.getD_some]
+  exact congrArg (fun x => Except.ok (Val.list x)) this
+
+theorem roundtrip_drm (v : List (Bytes × LocSet)) (h : CanonDrm v) :
+    ∃ r, fromString C .drmSelection (cgiText (toText C .drmSelection (.drm v))) = .ok (.drm r) ∧
+      ∀ e, e ∈ r ↔ e ∈ v := by
+  obtain ⟨r, hr, he, _⟩ := drm_roundtrip v h
+  exact ⟨r, by simp [fromString, toText, cgiText, hr, Except.map], he⟩
+
+theorem roundtrip_quotedUrl_none :
+    fromString C .quotedUrl (cgiText (toText C .quotedUrl .none)) = .ok .none := by rfl
+
+theorem roundtrip_quotedUrl (s : Bytes) (h : isNoneCI s = false) :
+    fromString C .quotedUrl (cgiText (toText C .quotedUrl (.str s))) = .ok (.str s) := by
+  simp [fromString, toText, cgiText, isNoneCI_quotePlus safeNone s h,
+    unquotePlus_quotePlus safeNone safeNone_ok]
+
+theorem roundtrip_ast_none :
+    fromString C .astDateTime (cgiText (toText C .astDateTime .none)) = .ok .none := by rfl
+
+theorem roundtrip_ast_special (s : Bytes) (h : s ∈ specialAst) :
+    fromString C .astDateTime (cgiText (toText C .astDateTime (.str s))) = .ok (.str s) := by
+  simp [fromString, toText, cgiText, h]
+
+theorem roundtrip_ast_dt (hC : DtCodecLaws C) (d : DT) :
+    fromString C .astDateTime (cgiText (toText C .astDateTime (.dt d))) = .ok (.dt d) := by
+  have hns : C.render d ∉ specialAst := by
+    have := specialAst_not_render C hC d; simpa using this
+  simp [fromString, toText, cgiText, hns, parseDT_render C hC d, Except.map]
+
+theorem roundtrip_dtOrNone_none :
+    fromString C .dtOrNone (cgiText (toText C .dtOrNone .none)) = .ok .none := by rfl
+
+theorem roundtrip_dtOrNone (hC : DtCodecLaws C) (d : DT) :
+    fromString C .dtOrNone (cgiText (toText C .dtOrNone (.dt d))) = .ok (.dt d) := by
+  simp [fromString, toText, cgiText, isNoneCS_render C hC d, parseDT_render C hC d, Except.map]
+
+theorem roundtrip_errorList (hC : DtCodecLaws C) (l : List (Int × Pos DT)) :
+    fromString C .errorList (cgiText (toText C .errorList (.errs l))) = .ok (.errs l) := by
+  simp only [toText, cgiText, Option.getD_some]
+  exact errorList_roundtrip C hC l
+
+theorem roundtrip_intOrDefault (k z : Int) :
+    fromString C (.intOrDefault k) (cgiText (toText C (.intOrDefault k) (.int z))) = .ok (.int z) := by
+  simp [fromString, toText, cgiText, intOrNone_intDec, Except.map]
+
+theorem roundtrip_posIntOrDefault (k z : Int) (h : 1 ≤ z) :
+    fromString C (.posIntOrDefault k) (cgiText (toText C (.posIntOrDefault k) (.int z))) = .ok (.int z) := by
+  have : ¬ z < 1 := by omega
+  simp [fromString, toText, cgiText, intOrNone_intDec, this]
+
+/-- every kind, every canonical value: formatting to URL text and parsing it is the identity -/
+theorem codec_roundtrip_all (hC : DtCodecLaws C) (k : Kind) (v : Val DT) (h : Canonical k v) :
+    ∃ v', fromString C k (cgiText (toText C k v)) = .ok v' ∧ ValEquiv v' v := by
+  cases k <;> cases v <;> simp only [Canonical] at h <;> try exact h.elim
+  case bool.bool b => exact ⟨_, roundtrip_bool C b, ValEquiv.refl _⟩
+  case intOrNone.none => exact ⟨_, roundtrip_intOrNone_none C, ValEquiv.refl _⟩
+  case intOrNone.int z => exact ⟨_, roundtrip_intOrNone C z, ValEquiv.refl _⟩
+  case floatOrNone.none => exact ⟨_, roundtrip_floatOrNone_none C, ValEquiv.refl _⟩
+  case floatOrNone.tenths t => exact ⟨_, roundtrip_floatOrNone C t, ValEquiv.refl _⟩
+  case strOrNone.none => exact ⟨_, roundtrip_strOrNone_none C, ValEquiv.refl _⟩
+  case strOrNone.str s => exact ⟨_, roundtrip_strOrNone C s h, ValEquiv.refl _⟩
+  case strRaw.str s => exact ⟨_, roundtrip_strRaw C s, ValEquiv.refl _⟩
+  case listJoin.list l => exact ⟨_, roundtrip_listJoin C l h, ValEquiv.refl _⟩
+  case drmSelection.drm l =>
+    obtain ⟨r, hr, he⟩ := roundtrip_drm C l h
+    exact ⟨_, hr, he⟩
+  case quotedUrl.none => exact ⟨_, roundtrip_quotedUrl_none C, ValEquiv.refl _⟩
+  case quotedUrl.str s => exact ⟨_, roundtrip_quotedUrl C s h, ValEquiv.refl _⟩
+  case astDateTime.none => exact ⟨_, roundtrip_ast_none C, ValEquiv.refl _⟩
+  case astDateTime.str s => exact ⟨_, roundtrip_ast_special C s h, ValEquiv.refl _⟩
+  case astDateTime.dt d => exact ⟨_, roundtrip_ast_dt C hC d, ValEquiv.refl _⟩
+  case dtOrNone.none => exact ⟨_, roundtrip_dtOrNone_none C, ValEquiv.refl _⟩
+  case dtOrNone.dt d => exact ⟨_, roundtrip_dtOrNone C hC d, ValEquiv.refl _⟩
+  case errorList.errs l => exact ⟨_, roundtrip_errorList C hC l, ValEquiv.refl _⟩
+  case intOrDefault.int k z => exact ⟨_, roundtrip_intOrDefault C k z, ValEquiv.refl _⟩
+  case posIntOrDefault.int k z => exact ⟨_, roundtrip_posIntOrDefault C k z h, ValEquiv.refl _⟩
+
+end
+
+
+/-! ### overrides (`params['verr'] = …`) -/
+
+theorem mem_setParam (ps : List (String × Option Bytes)) (k : String) (t : Bytes) (p : String × Option Bytes) :
+    p ∈ setParam ps k t ↔ (p ∈ ps ∧ p.1 ≠ k) ∨ p = (k, some t) := by
+  unfold setParam
+  simp [List.mem_append, List.mem_filter]
+
+theorem setParam_keys_nodup (ps : List (String × Option Bytes)) (k : String) (t : Bytes)
+    (h : (ps.map Prod.fst).Nodup) : ((setParam ps k t).map Prod.fst).Nodup := by
+  unfold setParam
+  rw [List.map_append]
+  apply List.nodup_append.mpr
+  refine ⟨?_, by simp, ?_⟩
+  · exact (List.Nodup.sublist ((List.filter_sublist).map Prod.fst) h)
+  · intro a ha b hb hab
+    subst hab
+    simp at hb; subst hb
+    obtain ⟨q, hq, rfl⟩ := List.mem_map.mp ha
+    have := (List.mem_filter.mp hq).2
+    simp at this
+
+theorem mem_applyOverrides (ps : List (String × Option Bytes)) (ovs : List (String × Bytes))
+    (hov : (ovs.map Prod.fst).Nodup) (p : String × Option Bytes) :
+    p ∈ applyOverrides ps ovs ↔
+      (p ∈ ps ∧ p.1 ∉ ovs.map Prod.fst) ∨ (∃ t, (p.1, t) ∈ ovs ∧ p.2 = some t) := by
+  induction ovs generalizing ps with
+  | nil => simp [applyOverrides]
+  | cons kv r ih =>
+    obtain ⟨k, t⟩ := kv
+    have hn : k ∉ r.map Prod.fst ∧ (r.map Prod.fst).Nodup := List.nodup_cons.mp hov
+    simp only [applyOverrides]
+    rw [ih _ hn.2, mem_setParam]
+    constructor
+    · rintro (⟨(⟨h1, h2⟩ | h1), h3⟩ | ⟨t', h1, h2⟩)
+      · left; exact ⟨h1, by simp [h2, h3]⟩
+      · right; subst h1; exact ⟨t, by simp, rfl⟩
+      · right; exact ⟨t', by simp [h1], h2⟩
+    · rintro (⟨h1, h2⟩ | ⟨t', h1, h2⟩)
+      · simp at h2
+        left; exact ⟨Or.inl ⟨h1, h2.1⟩, by simpa using h2.2⟩
+      · rcases List.mem_cons.mp h1 with h1 | h1
+        · simp at h1
+          left
+          refine ⟨Or.inr ?_, ?_⟩
+          · obtain ⟨pk, pv⟩ := p; simp at h1 h2 ⊢; exact ⟨h1.1, by rw [h2, h1.2]⟩
+          · rw [h1.1]; exact hn.1
+        · right; exact ⟨t', h1, h2⟩
+
+theorem applyOverrides_keys_nodup (ps : List (String × Option Bytes)) (ovs : List (String × Bytes))
+    (h : (ps.map Prod.fst).Nodup) : ((applyOverrides ps ovs).map Prod.fst).Nodup := by
+  induction ovs generalizing ps with
+  | nil => exact h
+  | cons kv r ih => exact ih _ (setParam_keys_nodup ps kv.1 kv.2 h)
+
+/-! ### the registry table as a dictionary -/
+
+/-- registered names need no escaping and are pairwise different -/
+def TableOk (tbl : List OptionRow) : Prop :=
+  (∀ r ∈ tbl, KeyOk r.cgi) ∧ (tbl.map (fun r => ascii r.cgi)).Nodup
+
+theorem findRow_of_get (tbl : List OptionRow) (ht : TableOk tbl) (i : Nat) (r : OptionRow)
+    (h : tbl[i]? = some r) : findRow tbl (ascii r.cgi) = some i := by
+  unfold findRow
+  have hlt : i < tbl.length := by
+    cases hh : tbl[i]? with
+    | none => rw [hh] at h; simp at h
+    | some x => exact (List.getElem?_eq_some_iff.mp hh).1
+  have hget : tbl[i] = r := by
+    have := List.getElem?_eq_some_iff.mp h; exact this.2
+  apply List.findIdx?_eq_some_iff_getElem.mpr
+  refine ⟨hlt, by simp [hget], ?_⟩
+  intro j hji
+  have hjl : j < tbl.length := by omega
+  intro hc
+  have hc' : ascii tbl[j].cgi = ascii r.cgi := by simpa using hc
+  have hnd : List.Pairwise (· ≠ ·) (tbl.map (fun r => ascii r.cgi)) := ht.2
+  have := List.pairwise_iff_getElem.mp hnd j i (by simpa using hjl) (by simpa using hlt) hji
+  simp [hget] at this
+  exact this hc'
+
+theorem table_cgi_nodup (tbl : List OptionRow) (ht : TableOk tbl) : (tbl.map (·.cgi)).Nodup := by
+  have : (tbl.map (fun r => ascii r.cgi)) = (tbl.map (·.cgi)).map ascii := by simp
+  have h2 : List.Pairwise (· ≠ ·) ((tbl.map (·.cgi)).map ascii) := by rw [← this]; exact ht.2
+  exact List.Pairwise.of_map ascii (fun a b hab e => hab (by rw [e])) h2
+
+theorem ascii_inj_on_table (tbl : List OptionRow) (ht : TableOk tbl) (r1 r2 : OptionRow)
+    (h1 : r1 ∈ tbl) (h2 : r2 ∈ tbl) (h : ascii r1.cgi = ascii r2.cgi) : r1.cgi = r2.cgi := by
+  obtain ⟨i, hi, e1⟩ := List.getElem_of_mem h1
+  obtain ⟨j, hj, e2⟩ := List.getElem_of_mem h2
+  have f1 := findRow_of_get tbl ht i r1 (by simp [hi, e1])
+  have f2 := findRow_of_get tbl ht j r2 (by simp [hj, e2])
+  rw [h, f2] at f1
+  have : j = i := Option.some.inj f1
+  subst this
+  rw [← e1, ← e2]
+
+
+/-! ### composition: parameters → URL → media handler -/
+
+section
+variable {DT : Type} (C : DTCodec DT)
+
+/-- a dictionary of parameters whose names are registered options and whose texts
+parse: the media handler, given the URL `path?query` that `dict_to_cgi_params`
+writes, ends with exactly the parsed value for every named option and with the
+default for every other option -/
+theorem media_parse_of_params (tbl : List OptionRow) (ht : TableOk tbl) (dflt : Nat → Val DT)
+    (path : Bytes) (hp : (35 : UInt8) ∉ path ∧ (63 : UInt8) ∉ path)
+    (P : List (String × Option Bytes)) (hnd : (P.map Prod.fst).Nodup)
+    (hP : ∀ p ∈ P, ∃ i : Nat, ∃ r : OptionRow, ∃ v, tbl[i]? = some r ∧ r.cgi = p.1 ∧
+      fromString C r.kind (cgiText p.2) = .ok v) :
+    ∃ res, mediaOptions C tbl dflt (path ++ renderQuery P) = .ok res ∧
+      (∀ i : Nat, ∀ r : OptionRow, tbl[i]? = some r → (∀ t, (r.cgi, t) ∉ P) → res i = dflt i) ∧
+      (∀ i : Nat, ∀ r : OptionRow, ∀ t, tbl[i]? = some r → (r.cgi, t) ∈ P →
+        fromString C r.kind (cgiText t) = .ok (res i)) := by
+  have hrow : ∀ p ∈ P, ∃ r ∈ tbl, r.cgi = p.1 := by
+    intro p hp'
+    obtain ⟨i, r, _, hr, hc, _⟩ := hP p hp'
+    exact ⟨r, List.mem_of_getElem? hr, hc⟩
+  have hkey : ∀ p ∈ P, KeyOk p.1 := by
+    intro p hp'
+    obtain ⟨r, hr, hc⟩ := hrow p hp'
+    rw [← hc]; exact ht.1 r hr
+  have hperm : (P.mergeSort keyLe).Perm P := List.mergeSort_perm P keyLe
+  have hSmem : ∀ p, p ∈ P.mergeSort keyLe ↔ p ∈ P := fun p => hperm.mem_iff
+  have hSkey : ∀ p ∈ P.mergeSort keyLe, KeyOk p.1 := fun p h => hkey p ((hSmem p).mp h)
+  have hSnd : ((P.mergeSort keyLe).map Prod.fst).Nodup := (hperm.map Prod.fst).nodup_iff.mpr hnd
+  -- the arguments the handler sees: names stay distinct as bytes
+  have hAnd : (((P.mergeSort keyLe).map (fun p => (ascii p.1, cgiText p.2))).map Prod.fst).Nodup := by
+    have hpw : List.Pairwise (fun a b : String × Option Bytes => ascii a.1 ≠ ascii b.1) (P.mergeSort keyLe) := by
+      have h1 : List.Pairwise (fun a b : String × Option Bytes => a.1 ≠ b.1) (P.mergeSort keyLe) :=
+        List.Pairwise.of_map Prod.fst (fun _ _ h => h) hSnd
+      refine List.Pairwise.imp_of_mem ?_ h1
+      intro a b ha hb hab e
+      obtain ⟨ra, hra, hca⟩ := hrow a ((hSmem a).mp ha)
+      obtain ⟨rb, hrb, hcb⟩ := hrow b ((hSmem b).mp hb)
+      apply hab
+      rw [← hca, ← hcb]
+      exact ascii_inj_on_table tbl ht ra rb hra hrb (by rw [hca, hcb]; exact e)
+    rw [List.map_map]
+    exact List.Pairwise.map _ (fun _ _ h => h) hpw
+  have hA : firstOnly (parseQsl (queryOf (path ++ renderQuery P))) =
+      (P.mergeSort keyLe).map (fun p => (ascii p.1, cgiText p.2)) := by
+    rw [queryOf_render path hp P hkey, parseQsl_render _ hSkey]
+    exact firstOnly_id _ hAnd
+  obtain ⟨res, hres, hdef, hval⟩ := convertOptions_spec C tbl _ hAnd dflt (by
+    intro kv hkv
+    obtain ⟨p, hp', rfl⟩ := List.mem_map.mp hkv
+    obtain ⟨i, r, v, hr, hc, hv⟩ := hP p ((hSmem p).mp hp')
+    exact ⟨i, r, v, by rw [← hc]; exact findRow_of_get tbl ht i r hr, hr, hv⟩)
+  refine ⟨res, by unfold mediaOptions; rw [hA]; exact hres, ?_, ?_⟩
+  · intro i r hr hno
+    apply hdef i
+    intro kv hkv hf
+    obtain ⟨p, hp', rfl⟩ := List.mem_map.mp hkv
+    have hpP := (hSmem p).mp hp'
+    obtain ⟨r', hr', he⟩ := findRow_spec tbl _ i hf
+    rw [hr] at hr'; cases hr'
+    obtain ⟨rp, hrp, hcp⟩ := hrow p hpP
+    have : r.cgi = rp.cgi :=
+      ascii_inj_on_table tbl ht r rp (List.mem_of_getElem? hr) hrp (by rw [hcp]; exact he)
+    apply hno p.2
+    rw [this, hcp]; exact hpP
+  · intro i r t hr hmem
+    have hkv : (ascii r.cgi, cgiText t) ∈ (P.mergeSort keyLe).map (fun p => (ascii p.1, cgiText p.2)) :=
+      List.mem_map.mpr ⟨(r.cgi, t), (hSmem _).mpr hmem, rfl⟩
+    exact hval _ hkv i r (findRow_of_get tbl ht i r hr) hr
+
+end
+
+
+section
+variable {DT : Type} (C : DTCodec DT)
+
+theorem errItem_num (c p : Int) : errItem C (intDec c ++ 61 :: intDec p) = .ok (c, .num p) := by
+  unfold errItem
+  rw [splitOn_append_sep 61 _ _ (intDec_noEq c), splitOn_noSep 61 _ (intDec_noEq p)]
+  simp [pyInt_intDec]
+
+theorem ValEquiv_iff_eq (a b : Val DT) (h : ∀ l, b ≠ .drm l) : ValEquiv a b ↔ a = b := by
+  cases a <;> cases b <;> simp [ValEquiv] <;> exact absurd rfl (h _)
+
+end
+
+
+theorem row_index_unique (tbl : List OptionRow) (ht : TableOk tbl) (i j : Nat) (r s : OptionRow)
+    (hi : tbl[i]? = some r) (hj : tbl[j]? = some s) (h : r.cgi = s.cgi) : i = j ∧ r = s := by
+  have f1 := findRow_of_get tbl ht i r hi
+  have f2 := findRow_of_get tbl ht j s hj
+  rw [h, f2] at f1
+  have : j = i := Option.some.inj f1
+  subst this
+  rw [hi] at hj
+  exact ⟨rfl, Option.some.inj hj⟩
+
+
 end DashLive.Options
